@@ -1,6 +1,7 @@
 package world
 
 import (
+	"time"
 	"bytes"
 	"encoding/hex"
 	"fmt"
@@ -397,6 +398,12 @@ func (q *puppetQSpec) qf(method string, in proto.Message, replies map[uint32]int
 	}
 	if spec.Slow {
 		simrt.Yield("qf:slow")
+	}
+	if spec.StallMs > 0 && k == 1 {
+		t0 := w.elapsed()
+		simrt.Gate("qf:stall", func() bool {
+			return w.elapsed()-t0 >= time.Duration(spec.StallMs)*time.Millisecond || w.settlingA.Load()
+		})
 	}
 	w.mu.Lock()
 	inv.Quorum, inv.Level, inv.Ret = quorum, level, ret
